@@ -55,6 +55,10 @@ def payload(kind, bits, prev):
     if kind == 'W':
         blk = rnd((1 << bits) + 300, b'w%d' % bits)
         return (BINARY, blk + blk)
+    if kind == 'N':
+        # a match as far back as the negotiated window allows (zlib reaches 2**bits - 262): the receiver's window must really be that large
+        blk = rnd((1 << bits) - 300 if bits >= 10 else 150, b'n%d' % bits)
+        return (BINARY, blk + blk)
     if kind == 'I':
         return (BINARY, rnd(600, b'i'))
     if kind == 'L':
@@ -72,7 +76,7 @@ def history(kinds, bits):
     return out
 
 
-KINDS = ['E', 'S', 'R', 'W', 'I']
+KINDS = ['E', 'S', 'R', 'W', 'I', 'N']
 
 
 def fragmentations(data):
